@@ -296,6 +296,51 @@ func C12(c *core.Ctx) {
 		collect(ck, 0)
 		c.Floor("R12.3", "accepting returns of checkInterest", len(okRets), 1)
 		appNonNil := atomFieldNonNil("AppParams!=nil", val, "ApplicationParameters")
+		// ---- R12.7 a parameters-digest component vouches for an ApplicationParameters
+		// element: on the side on which that element is absent, a name component of type
+		// ParametersSha256Digest cannot lead to acceptance (otherwise altering the type
+		// octet of the parameters element, which makes the parser skip it as unknown, goes
+		// unnoticed although the digest is still in the name)
+		if digT, okT := lookupConst(p, "std/encoding", "TypeParametersSha256DigestComponent"); okT {
+			isDig := &core.Atom{Name: "component is a parameters digest", Match: func(cond ssa.Value) (int, int) {
+				op, x, y, ok := core.Cmp(cond)
+				if !ok || (op != token.EQL && op != token.NEQ) {
+					return 0, 0
+				}
+				if _, isC := core.ConstInt(x); isC {
+					x, y = y, x
+				}
+				k, isC := core.ConstInt(y)
+				if !isC || k != digT {
+					return 0, 0
+				}
+				if _, isTyp := core.FieldOf(core.StripConv(x), "Typ"); !isTyp {
+					return 0, 0
+				}
+				return core.Iff(op == token.EQL)
+			}}
+			nTests, bad := 0, ""
+			for _, nf := range core.EdgeFactsDeep(ck, appNonNil) {
+				if nf.Holds || len(nf.E.To.Preds) != 1 {
+					continue // only the side asserting that the parameters are absent
+				}
+				for _, df := range core.EdgeFactsDeep(ck, isDig) {
+					if !df.Holds || df.E.From.Parent() != nf.E.To.Parent() {
+						continue
+					}
+					if !(nf.E.To == df.E.From || nf.E.To.Dominates(df.E.From)) {
+						continue
+					}
+					nTests++
+					for _, r := range okRets {
+						if r.Parent() == df.E.To.Parent() && core.ReachInstrFrom(core.Point{Block: df.E.To, Idx: 0}, r, nil, nil) != nil {
+							bad = c.Pos(r)
+						}
+					}
+				}
+			}
+			c.Decide(nTests > 0 && bad == "", "R12.7", "digest-component-needs-parameters", p.Pos(ck.Pos()), "without ApplicationParameters, a ParametersSha256Digest component in the name leads to rejection", "checkInterest accepts an Interest whose name carries a ParametersSha256Digest component although no ApplicationParameters element was decoded (the digest is only compared when the element is present): flipping a bit of the element's type octet makes the parser skip it as unknown, and the Interest decodes with its parameters gone")
+		}
 		sigNonNil := atomFieldNonNil("SignatureValue!=nil", val, "SignatureValue")
 		nameNonNil := atomFieldNonNil("Name!=nil", val, "NameV")
 		isLastComp := func(v ssa.Value, field string) bool {
@@ -436,8 +481,12 @@ func C12(c *core.Ctx) {
 		c.Decide(len(rets) > 0 && g.OK && g.PassEdges > 0, "R12.3", "entry-parse-error-gate:"+ep.name, p.Pos(fn.Pos()), "a packet is returned only when Parse returned no error", ep.name+" can return a packet although decoding failed")
 		switch ep.name {
 		case "ReadInterest", "ReadPacket":
-			g := core.GateDeep(fn, rets, neg(intr), pos(data), pos(ckOK))
-			c.Decide(g.OK && g.PerLit[2] > 0, "R12.3", "entry-checkInterest-gate:"+ep.name, p.Pos(fn.Pos()), "an Interest is returned only through checkInterest == nil", ep.name+" can return an Interest that did not pass checkInterest (parameters digest unchecked)")
+			// (the presence of a Data in the same buffer is no excuse: callers look at the
+			// Interest first — a former version of this rule accepted the Data branch as a
+			// pass and missed exactly that bypass)
+			_ = data
+			g := core.GateDeep(fn, rets, neg(intr), pos(ckOK))
+			c.Decide(g.OK && g.PerLit[1] > 0, "R12.3", "entry-checkInterest-gate:"+ep.name, p.Pos(fn.Pos()), "an Interest is returned only through checkInterest == nil", ep.name+" can return an Interest that did not pass checkInterest (parameters digest unchecked)")
 		case "ReadData":
 			nm := atomValNonNil("Data.Name!=nil", func(v ssa.Value) bool {
 				_, path := core.FieldPath(v)
